@@ -704,3 +704,6 @@ Proof.
   - apply NoDup_map_fst_inv. rewrite E. exact Hc.
   - intros e. rewrite In_border, Hb, in_flat_map. unfold cyc_pairs. tauto.
 Qed.
+
+(* depth-first search through a nested disjunction *)
+Ltac pick_disj tac := first [solve [tac] | left; pick_disj tac | right; pick_disj tac].
